@@ -44,13 +44,42 @@ def _body_wo_doc(fn: FuncNode) -> T.List[ast.stmt]:
     return b
 
 
-def _resolve(mod: Module, cls: T.Optional[str], call: ast.Call, exclude: T.Set[str]) -> T.Optional[T.Tuple[FuncNode, bool]]:
-    """(helper, drop first parameter?)"""
+_ATTR_CLASSES: T.Dict[T.Tuple[str, str, str], T.Dict[str, str]] = {}
+
+
+def _attr_class(mod: Module, cls: str, attr: str) -> T.Optional[str]:
+    """Declared class of `self.<attr>` of class cls: a class-level annotation `attr: C` or `self.attr: C = ...` in a method,
+    where C is a class of the same module (one scan per class, cached by module digest)."""
+    key = (mod.rel, mod.digest, cls)
+    if key not in _ATTR_CLASSES:
+        table: T.Dict[str, str] = {}
+        if mod.has_cls(cls):
+            c = mod.cls(cls)
+            body_ids = {id(x) for x in c.body}
+            for n in ast.walk(c):
+                if isinstance(n, ast.AnnAssign):
+                    t = n.target
+                    nm_attr = t.id if isinstance(t, ast.Name) and id(n) in body_ids else \
+                        (t.attr if isinstance(t, ast.Attribute) and isinstance(t.value, ast.Name) and t.value.id == 'self' else None)
+                    if nm_attr is None:
+                        continue
+                    a = n.annotation
+                    nm = a.value if isinstance(a, ast.Constant) and isinstance(a.value, str) else (a.id if isinstance(a, ast.Name) else None)
+                    if isinstance(nm, str) and mod.has_cls(nm):
+                        table.setdefault(nm_attr, nm)
+        if len(_ATTR_CLASSES) > 32:
+            _ATTR_CLASSES.clear()
+        _ATTR_CLASSES[key] = table
+    return _ATTR_CLASSES[key].get(attr)
+
+
+def _resolve(mod: Module, cls: T.Optional[str], call: ast.Call, exclude: T.Set[str]) -> T.Optional[T.Tuple[FuncNode, bool, T.Optional[ast.AST]]]:
+    """(helper, drop first parameter?, receiver expression that stands for the helper's `self` - None when it is our own self)"""
     f = call.func
     if isinstance(f, ast.Name):
         if f.id in exclude or not mod.has_func(f.id):
             return None
-        return mod.func(f.id), False
+        return mod.func(f.id), False, None
     if isinstance(f, ast.Attribute) and isinstance(f.value, ast.Name) and cls and f.value.id in ('self', 'cls', cls):
         q = f'{cls}.{f.attr}'
         if f.attr in exclude or not mod.has_func(q):
@@ -59,7 +88,18 @@ def _resolve(mod: Module, cls: T.Optional[str], call: ast.Call, exclude: T.Set[s
         decs = decorator_names(h)
         if any(d not in ('staticmethod', 'classmethod') for d in decs):
             return None
-        return h, 'staticmethod' not in decs
+        return h, 'staticmethod' not in decs, None
+    if isinstance(f, ast.Attribute) and isinstance(f.value, ast.Attribute) and isinstance(f.value.value, ast.Name) and f.value.value.id == 'self' and cls:
+        # self.<attr>.m(...): a method of the declared class of the attribute
+        other = _attr_class(mod, cls, f.value.attr)
+        q = f'{other}.{f.attr}' if other else None
+        if q is None or f.attr in exclude or not mod.has_func(q):
+            return None
+        h = mod.func(q)
+        decs = decorator_names(h)
+        if any(d not in ('staticmethod',) for d in decs):
+            return None
+        return h, 'staticmethod' not in decs, (f.value if 'staticmethod' not in decs else None)
     return None
 
 
@@ -103,9 +143,11 @@ def _stores(nodes: T.Iterable[ast.AST]) -> T.Set[str]:
 def _plain(stmts: T.List[ast.stmt]) -> bool:
     for st in stmts:
         for n in ast.walk(st):
-            if isinstance(n, (ast.Try, ast.With, ast.AsyncWith, ast.Yield, ast.YieldFrom, ast.Await, ast.FunctionDef, ast.AsyncFunctionDef, ast.Lambda,
+            if isinstance(n, (ast.Yield, ast.YieldFrom, ast.Await, ast.FunctionDef, ast.AsyncFunctionDef, ast.Lambda,
                               ast.Global, ast.Nonlocal, ast.ClassDef)) or n.__class__.__name__ in ('TryStar', 'Match'):
                 return False
+            if isinstance(n, (ast.Try, ast.With, ast.AsyncWith)) and any(isinstance(x, ast.Return) for x in ast.walk(n)):
+                return False      # a return inside a try/with cannot be turned into an assignment by _conv
             if isinstance(n, (ast.For, ast.While, ast.AsyncFor)) and any(isinstance(x, ast.Return) for x in ast.walk(n)):
                 return False
     return True
@@ -154,7 +196,7 @@ def inline_helpers(mod: Module, fn: FuncNode, cls: T.Optional[str], exclude: T.I
             r = _resolve(mod, cls, call, excl)
             if r is None:
                 return None
-            h, drop = r
+            h, drop, recv = r
             if target == '_':
                 target = f'_ret__{h.name}'
             if _expr_bodied(h) is not None:
@@ -167,6 +209,8 @@ def inline_helpers(mod: Module, fn: FuncNode, cls: T.Optional[str], exclude: T.I
             pre: T.List[ast.stmt] = []
             mapping: T.Dict[str, ast.AST] = {}
             rename: T.Dict[str, str] = {}
+            if recv is not None:
+                mapping['self'] = recv
             for p, a in binding.items():
                 if _simple(a) and p not in stored:
                     mapping[p] = a
@@ -243,13 +287,16 @@ def inline_helpers(mod: Module, fn: FuncNode, cls: T.Optional[str], exclude: T.I
                 r = _resolve(mod, cls, c, excl)
                 if r is None:
                     return c
-                h, drop = r
+                h, drop, recv = r
                 val = _expr_bodied(h)
                 if val is None:
                     return c
                 binding = _bind(h, c, drop)
                 if binding is None:
                     return c
+                if recv is not None:
+                    binding = dict(binding)
+                    binding['self'] = recv
                 uses: T.Dict[str, int] = {}
                 for n in ast.walk(val):
                     if isinstance(n, ast.Name):
